@@ -398,6 +398,66 @@ fn nested_struct_probe(rep: &mut Report) {
     }
 }
 
+/// Random nestings: an outer struct with 1–3 lifetimes whose fields are inner borrowing structs instantiated with any
+/// of them (repeated, crossed, `'static`); the getters the JS and Dart backends print against the model (`nestedGetter`).
+fn nested_random(rep: &mut Report, rng: &mut Rng, n: usize) {
+    let inner_defs = "    pub struct In1<'p> { pub a: &'p Node }\n    pub struct In2<'p, 'q> { pub a: &'p Node, pub b: DiplomatStrSlice<'q> }\n    pub struct In3<'p, 'q, 'r> { pub a: &'p Node, pub b: DiplomatStrSlice<'q>, pub c: &'r Node }\n";
+    let lt = ["a", "b", "c"];
+    for k in 0..n {
+        let nl = 1 + rng.below(3);
+        let nf = 1 + rng.below(3);
+        // (inner arity, args: Some(outer index) | None = 'static)
+        let fields: Vec<(usize, Vec<Option<usize>>)> = (0..nf).map(|_| { let m = 1 + rng.below(3); (m, (0..m).map(|_| if rng.chance(1, 24) { None } else { Some(rng.below(nl)) }).collect()) }).collect();
+        let generics = (0..nl).map(|i| format!("'{}", lt[i])).collect::<Vec<_>>().join(", ");
+        let mut body = String::new();
+        for (i, (m, args)) in fields.iter().enumerate() {
+            body += &format!("pub f{i}: In{m}<{}>, ", args.iter().map(|a| match a { Some(x) => format!("'{}", lt[*x]), None => "'static".into() }).collect::<Vec<_>>().join(", "));
+        }
+        for i in 0..nl { body += &format!("pub z{i}: &'{} Node, ", lt[i]); }
+        let src = format!("#[diplomat::bridge]\nmod ffi {{\n    use diplomat_runtime::DiplomatStrSlice;\n    #[diplomat::opaque]\n    pub struct Node(pub u32);\n{inner_defs}    pub struct Outer<{generics}> {{ {body}}}\n    impl Node {{ pub fn take<{generics}>(&self, o: Outer<{generics}>) -> u8 {{ 0 }} }}\n}}\n");
+        let line = format!("(c04nest {nl}{})", fields.iter().enumerate().map(|(i, (_, args))| format!(" (f{i}{})", args.iter().map(|a| match a { Some(x) => format!(" {x}"), None => " -".into() }).collect::<String>())).collect::<String>());
+        let model = match crate::model::run_model("C04", &[line.clone()]) { Ok(m) => m[0].clone(), Err(e) => { rep.disagree(&line, "model-driver", "", &e); return; } };
+        for backend in ["js", "dart"] {
+            let o = tool::run_backend(&src, backend);
+            if !o.ok() {
+                rep.count(&format!("nested-random:{backend}:{}", o.status().split(':').next().unwrap_or("?")));
+                if let Some(p) = &o.panic {
+                    let key = format!("nested-random-panic:{backend}:{}", p.split(": ").next().unwrap_or("?"));
+                    if !rep.notes.iter().any(|n| n.starts_with(&key)) { rep.notes.push(format!("{key} — {p} — {line}")); }
+                }
+                continue;
+            }
+            rep.count(&format!("nested-random:{backend}:checked"));
+            let file = if backend == "js" { "Outer.mjs" } else { "Outer.g.dart" };
+            let text = tool::norm_ws(o.files.get(file).map(|s| s.as_str()).unwrap_or(""));
+            let mut real = vec![];
+            for x in 0..nl {
+                let up = lt[x].to_uppercase();
+                let head = if backend == "js" { format!("get _fieldsForLifetime{up}() {{ return [") } else { format!("get _fieldsForLifetime{up} => [") };
+                let items: Vec<String> = match text.find(&head) {
+                    None => vec!["<no getter>".into()],
+                    Some(at) => {
+                        let list = &text[at + head.len()..];
+                        let list = &list[..list.find(']').unwrap_or(list.len())];
+                        list.split(',').map(|i| i.trim()).filter(|i| i.starts_with("...")).map(|i| {
+                            let i = i.trim_start_matches("...").trim_start_matches("this.#").trim_start_matches("this.");
+                            let (f, g) = i.split_once("._fieldsForLifetime").unwrap_or((i, "?"));
+                            format!("{f}.{}", match g { "P" => "0", "Q" => "1", "R" => "2", o => o })
+                        }).collect()
+                    }
+                };
+                real.push(format!("lt={x} {}", items.join(",")));
+            }
+            let real = real.join("; ");
+            if real != model {
+                rep.disagree(&format!("{line} backend={backend}"), "nested-struct-getters", &real, &model);
+                rep.oracle_fail(&format!("{line} backend={backend}"), "a garbage-collected backend does not attach an input the returned value borrows from", json!({"backend": backend, "getters": real, "expected": model, "source": src}));
+            }
+        }
+        let _ = k;
+    }
+}
+
 /// Dart returns a borrowed primitive slice either as a copy or as a typed-list *view* onto Rust memory; a view has to
 /// keep the lifetime edges (what it borrows from) alive for as long as it lives.
 fn dart_slice_view_probe(rep: &mut Report) {
@@ -655,6 +715,7 @@ pub fn main(args: &[String]) {
     nanobind_position_probe(&mut rep);
     nested_struct_probe(&mut rep);
     dart_slice_view_probe(&mut rep);
+    { let mut r2 = Rng::new(a.seed ^ 0x6e65); nested_random(&mut rep, &mut r2, if thorough { 400 } else { 40 }); }
     let n = if a.n > 0 { a.n } else if thorough { 20000 } else { 2000 };
     let sigs: Vec<Sig> = (0..n).map(|i| gen_sig(&mut rng, if thorough && i % 4 == 0 { 6 } else { 4 }, true)).collect();
     let lines: Vec<String> = sigs.iter().map(|s| s.sexp()).collect();
